@@ -205,6 +205,24 @@ def check(run):
             ops.append({"op": "pub", "c": 9, "t": t, "p": "x%d" % pid, "q": pid % 2, "id": pid})
         ops.append({"op": "quiesce"})
         bscns.append({"nodes": [1], "ops": ops})
+    # three sessions on two nodes subscribe in every order (the matching subscriptions of the two nodes interleave in every way): each
+    # node stores the publish once, each session gets one copy per matching subscription
+    import itertools
+    for order in itertools.permutations((1, 2, 3)):
+        for same in (True, False):
+            ops = [{"op": "connect", "c": 1, "n": 1, "client": "a", "ka": 600}, {"op": "connect", "c": 2, "n": 2, "client": "b", "ka": 600},
+                   {"op": "connect", "c": 3, "n": 1, "client": "c", "ka": 600}, {"op": "connect", "c": 8, "n": 1, "client": "p1", "ka": 600},
+                   {"op": "connect", "c": 9, "n": 2, "client": "p2", "ka": 600}]
+            fl = {1: ["k", "x"], 2: ["k", "x"], 3: ["k", "x"]} if same else {1: ["k", "x"], 2: ["k", "+"], 3: ["#"]}
+            for c in order:
+                ops.append({"op": "sub", "c": c, "id": 10 + c, "fs": [{"f": fl[c], "q": c % 2}]})
+            tag = "".join(map(str, order)) + ("s" if same else "d")
+            ops.append({"op": "pub", "c": 8, "t": ["k", "x"], "p": "i1-" + tag, "q": 1, "r": False, "id": 1})
+            ops.append({"op": "pub", "c": 9, "t": ["k", "x"], "p": "i2-" + tag, "q": 0, "r": False, "id": 0})
+            ops.append({"op": "unsub", "c": order[0], "id": 20, "fs": [{"f": fl[order[0]], "q": 0}]})
+            ops.append({"op": "pub", "c": 9, "t": ["k", "x"], "p": "i3-" + tag, "q": 1, "r": False, "id": 2})
+            ops.append({"op": "quiesce"})
+            bscns.append({"nodes": [1, 2], "ops": ops})
     # a matching session must get every publish once, whatever the other sessions do: one subscriber stops reading for a whole burst
     # that carries the log consumer over a truncation point
     from checks import c02
@@ -243,7 +261,7 @@ def check(run):
         "samples": [scns[0]["ops"], scns[len(scns) // 2]["ops"], scns[-1], {"trace_excerpt": vlib.head_events(tpath, 5)}],
     }, ["filters with '#' in a non-final position or '+'/'#' inside a level are invalid in MQTT and excluded",
         "topic/filter strings are built by the harness by joining level sequences with '/'; the empty string (single empty level) is excluded",
-        "broker level: an even sample of the TLC-generated histories is replayed through two real sessions (on one node, or on two nodes with at-least-once gossip) with two publishes after every step; plus SUBSCRIBE / UNSUBSCRIBE packets carrying two or three filters (every ordered pair of seven short filters), six publishes after each; BrokerTrace requires one PUBLISH per matching active subscription and none otherwise; plus one run in which one of two matching subscribers stops reading for a burst of 1650 on a log pre-filled to 2450"],
+        "broker level: an even sample of the TLC-generated histories is replayed through two real sessions (on one node, or on two nodes with at-least-once gossip) with two publishes after every step; plus SUBSCRIBE / UNSUBSCRIBE packets carrying two or three filters (every ordered pair of seven short filters), six publishes after each; BrokerTrace requires one PUBLISH per matching active subscription and none otherwise; plus three sessions on two nodes subscribing in every order (12 scenarios); plus one run in which one of two matching subscribers stops reading for a burst of 1650 on a log pre-filled to 2450"],
         violations=v.n_new)
     run.log("validated %d scenarios, %d rejected (%d known)" % (validated, len(rejected), v.n_known))
     return rc
